@@ -548,6 +548,12 @@ def run_item(gid, item, cfg):
                     raise
                 c.steps = 0
                 c.fail('terminates', 'symbolic execution of the call did not finish within %d steps on this path' % c.max_steps)
+            except RecursionError:
+                # unbounded recursion in the symbolic run: a violation only if the real call fails the same way (replay)
+                if c.callspec is None or c.callspec.done or not run.replayable:
+                    raise
+                c.steps = 0
+                c.fail('terminates', 'symbolic execution of the call exhausted the recursion limit on this path')
             spec = c.callspec
             refuted = [o for o in c.obligations if o.status == 'refuted']
             names = run.names
